@@ -605,20 +605,20 @@ theorem C14_source_whether_to_implement_total (env : Py.Env) (ext : Py.Ext) (cls
     `add_repr`, `add_str`, `add_init` / `add_attrs_init`, `add_match_args` exactly as the declarative table
     `Src.wrapModel` says (flag obeyed; unset flag + auto_detect + own method ⇒ not generated; `__attrs_init__` iff no
     `__init__` is generated; `__match_args__` iff `match_args` and no own one) — for every repr/init ∈ {None, True,
-    False}, str, own `__repr__`/`__init__`/`__match_args__`, auto_detect, match_args, Python ≥ 3.10 (2 048 rows). -/
-theorem C14_source_wrap_methods : ∀ (rs rv orr st is iv oi ad ma om p10 : Bool),
-    Src.srcWrap (Src.sliceMethods rs rv orr st is iv oi ad ma om p10) =
-      Src.wrapModel (Src.sliceMethods rs rv orr st is iv oi ad ma om p10) :=
+    False}, str, own `__repr__`/`__init__`/`__match_args__`, auto_detect, match_args, (1 024 rows). -/
+theorem C14_source_wrap_methods : ∀ (rs rv orr st is iv oi ad ma om : Bool),
+    Src.srcWrap (Src.sliceMethods rs rv orr st is iv oi ad ma om) =
+      Src.wrapModel (Src.sliceMethods rs rv orr st is iv oi ad ma om) :=
   Src.wrap_slice_methods
 
 /-- **C14_source_wrap_state**: … and hands `_ClassBuilder` the getstate/setstate decision of the table (flag, else
     own `__getstate__`/`__setstate__` under auto_detect, else `slots or inherits a generated pair`), the frozen-ness
     (own or inherited) and the own-`__setattr__` fact, and raises ValueError for an own `__setattr__` on a frozen
     class — for every getstate_setstate ∈ {None, True, False}, slots, inherited pair, own methods, auto_detect,
-    frozen, frozen base, cache_hash (2 048 rows). -/
-theorem C14_source_wrap_state : ∀ (gss gsv sl ig og os ad osa fz fb ch : Bool),
-    Src.srcWrap (Src.sliceState gss gsv sl ig og os ad osa fz fb ch) =
-      Src.wrapModel (Src.sliceState gss gsv sl ig og os ad osa fz fb ch) :=
+    frozen, frozen base (512 rows). -/
+theorem C14_source_wrap_state : ∀ (gss gsv sl ig og ad osa fz fb : Bool),
+    Src.srcWrap (Src.sliceState gss gsv sl ig og ad osa fz fb) =
+      Src.wrapModel (Src.sliceState gss gsv sl ig og ad osa fz fb) :=
   Src.wrap_slice_state
 
 /-- **C14_source_define_retry_same_arguments**: when `auto_attribs` is not given, the translated body of
